@@ -476,7 +476,7 @@ impl<K: CKind> Core<K> {
 
     fn case(&self) -> serde_json::Value {
         json!({"kind": K::NAME, "nodes": 1024, "cache": 1024, "threads": 1, "calls": self.trace,
-               "legend": "m = oxidd_<kind>_manager_new(1024, 1024, 1) (big shards: (131072, 1024, 2)); hN = handle returned by the N-th handle-returning call (copies obtained through ref have the same value and print under the name of the first owned copy); every listed call is executed in order on one manager"})
+               "legend": "m = oxidd_<kind>_manager_new(1024, 1024, 1) (big shards: (131072, 1024, 2), tiny shards: (9, 1024, 1)); hN = handle returned by the N-th handle-returning call (copies obtained through ref have the same value and print under the name of the first owned copy); every listed call is executed in order on one manager"})
     }
 
     pub fn viol(&mut self, ctx: &mut Ctx, op: &str, class: &str, msg: &str) {
@@ -747,8 +747,17 @@ pub const NV: u32 = 3;
 /// `big` shards: node store above the 65536-node threshold of the index backend and two workers
 /// (worker threads keep private node counters / free lists)
 static BIG: std::sync::atomic::AtomicBool = std::sync::atomic::AtomicBool::new(false);
+/// `tiny` shards: a node store that the sequences fill up, so that operations fail with out-of-memory
+/// (the C API returns an invalid handle where the Rust API returns an error)
+static TINY: std::sync::atomic::AtomicBool = std::sync::atomic::AtomicBool::new(false);
 fn mgr_cfg() -> (usize, usize, u32) {
-    if BIG.load(Ordering::Relaxed) { (1 << 17, 1024, 2) } else { (1024, 1024, 1) }
+    if BIG.load(Ordering::Relaxed) {
+        (1 << 17, 1024, 2)
+    } else if TINY.load(Ordering::Relaxed) {
+        (9, 1024, 1)
+    } else {
+        (1024, 1024, 1)
+    }
 }
 
 impl<K: CKind> St<K> {
@@ -1467,6 +1476,9 @@ pub fn shards(tier: &str) -> Vec<String> {
         for c in 0..CORE {
             v.push(format!("{k}:big{c}"));
         }
+        for c in 0..CORE {
+            v.push(format!("{k}:tiny{c}"));
+        }
         v.push(format!("{k}:orders"));
     }
     v
@@ -1483,12 +1495,16 @@ pub fn run(ctx: &mut Ctx) {
     }
     let shard = ctx.shard.clone();
     let (k, rest) = shard.split_once(':').expect("bad shard");
-    let rest = match rest.strip_prefix("big") {
-        Some(c) => {
+    let rest = match (rest.strip_prefix("big"), rest.strip_prefix("tiny")) {
+        (Some(c), _) => {
             BIG.store(true, Ordering::Relaxed);
             format!("c{c}")
         }
-        None => rest.to_string(),
+        (_, Some(c)) => {
+            TINY.store(true, Ordering::Relaxed);
+            format!("c{c}")
+        }
+        _ => rest.to_string(),
     };
     if rest == "orders" {
         match k {
